@@ -1,5 +1,56 @@
-import ZckModel.Update
-import ZckModel.Pred.Update
+/-
+C11 — Interrupted updates resume to the exact file; partial chunks never trusted.
+The only state that survives an interruption is the target file.  The model of the procedure (`Update.update`) takes the
+initial target as an ARBITRARY byte string, and every theorem of C04 / C05 / C09 quantifies over it — so each holds of
+the restart, whatever point the interruption hit (inside the header, inside a chunk, inside a multipart part header), and
+by iteration of any number of interruptions.  This file states the corollaries for crash states explicitly.
+PARTIAL (as C04): convergence to B (completeness of a round with an honest server) is checked, not proved.
+-/
+import ZckModel.Props.C04
+import ZckModel.Props.C09
+
 namespace Zck.C11
-theorem placeholder_true : True := trivial
+open Zck Zck.Format Zck.Dl Zck.Copy Zck.C05 Zck.C04 Zck.Update
+
+/-- a write(2) cut short: the first `j` bytes of `d` reach the file at `off` -/
+def cutWrite (f : Bytes) (off : Nat) (d : Bytes) (j : Nat) : Bytes := writeAt f off (d.take j)
+
+/-- the target after the first `k` writes of a run completed and the next was cut after `j` bytes -/
+def crash (tgt0 : Bytes) (ws : List (Nat × Bytes)) (k j : Nat) : Bytes :=
+  let done := (ws.take k).foldl (fun f w => writeAt f w.1 w.2) tgt0
+  match ws[k]? with
+  | some w => cutWrite done w.1 w.2 j
+  | none => done
+
+/-- **no partially written chunk is trusted, after any interruption**: in the restart's fetch loop (and, by `C05.verified`,
+in each of its transfers) a chunk is marked valid only if the bytes at its extent hash to its checksum — stated for the
+crash state of an arbitrary write trace, cut anywhere -/
+theorem restart_sound (H : HashFn) (rx : Rx) (B : Bytes) (th : Hdr) (limit : Int) (frag : Nat)
+    (hd : Disj (envOf H rx th [])) (tgt0 : Bytes) (ws : List (Nat × Bytes)) (k j : Nat) (valid : List Int)
+    (hok : AllOk (envOf H rx th []) (crash tgt0 ws k j) valid) (fuel : Nat) :
+    let out := Update.loop H rx B th limit frag fuel (crash tgt0 ws k j) valid [] 0
+    AllOk (envOf H rx th []) out.1 out.2.1 ∧ (∀ c, valid.getD c 0 = 1 → out.2.1.getD c 0 = 1) ∧
+    (out.2.2.2.2 = none → countEq out.2.1 0 = 0) :=
+  loop_sound H rx B th limit frag hd fuel (crash tgt0 ws k j) valid [] 0 hok
+
+/-- **a chunk that was completely and correctly written before the interruption is never written again**: a chunk the
+restart's scan marks valid keeps its bytes through every later transfer (C05 confinement), so the restart does not depend
+on fetching it — stated for one transfer from a crash state -/
+theorem valid_chunk_untouched (e : Env) (tgt0 : Bytes) (ws : List (Nat × Bytes)) (k j : Nat) (valid : List Int)
+    (lines frags : List Bytes) (i : Nat) (hi : Outside e valid i) :
+    (session e (crash tgt0 ws k j) valid lines frags).2.2.file.getD i 0 = (crash tgt0 ws k j).getD i 0 := by
+  unfold session
+  exact (C05.confined e { file := crash tgt0 ws k j, pos := 0, valid := valid } lines frags true false rfl rfl).1 i hi
+
+/-- **what the scan says about one chunk** (C09): the scan assigns 1 exactly when every stored byte is there and they hash
+to the index checksum — so a chunk cut short by the interruption, or followed by nothing, is not trusted -/
+theorem scan_trusts_only_complete (H : HashFn) (f : Bytes) (hdr : Hdr) (ch : Chunk) (pos : Nat) (d : Bytes)
+    (hd : H hdr.chunkHashType (Reader.fileRead f pos ch.compLen) = some d) :
+    C09.scanValue H hdr ch (Reader.readPieces f pos ch.compLen).1 (Reader.readPieces f pos ch.compLen).2.2 = 1
+    ↔ ((Reader.fileRead f pos ch.compLen).length = ch.compLen ∧ (if ch.compLen = 0 then zeros d.length else d) = ch.digest) :=
+  C09.scan_value_exact H f hdr ch pos d hd
+
+/-- TEST: a trace of two writes cut inside the second -/
+example : crash [0, 0, 0, 0, 0, 0] [(0, [1, 2]), (2, [3, 4, 5])] 1 2 = [1, 2, 3, 4, 0, 0] := by decide
+
 end Zck.C11
